@@ -204,8 +204,8 @@ Lemma step_branch g d d' P0 c g1 g2 :
   complete g1 [length g - 1] d' = Ok g2 ->
   pre g2 d' (fun i => P0 i \/ i = length g - 1) /\ length g2 = S (length g) /\
   graph_items g2 = graph_items g ++ [(KCond c, d)] /\ gext g g2 /\
-  (exists bl, g2 !! (length g - 1) = Some bl /\ last (b_items bl) = Some (IBranch c (length g) None) /\
-              b_succs bl = [length g]) /\
+  (exists bo bl, g !! (length g - 1) = Some bo /\ g2 !! (length g - 1) = Some bl /\
+              b_items bl = b_items bo ++ [IBranch c (length g) None] /\ b_succs bl = [length g]) /\
   (exists nb, g2 !! length g = Some nb /\ b_items nb = []).
 Proof.
   intros Hpre Hupd Hc. apply upd_last_inv in Hupd as [Hne ->].
@@ -277,8 +277,8 @@ Proof.
       * eapply bext_trans; [apply (bext_push (IBranch c (S l) None)); done|apply bext_add_succ].
     + exists b. split; [|apply bext_refl]. rewrite lookup_app_l; [by apply Hho|].
       rewrite Hlen. by eapply lookup_lt_Some.
-  - exists bl'. split; [rewrite lookup_app_l by lia; done|]. unfold bl'. simpl.
-    rewrite last_snoc, Hsl, Hlg. done.
+  - exists bl, bl'. split; [done|]. split; [rewrite lookup_app_l by lia; done|]. unfold bl'. simpl.
+    rewrite Hsl, Hlg. done.
   - exists nb. done.
 Qed.
 
@@ -349,4 +349,51 @@ Proof.
     by rewrite decide_True.
   - intros i b Hb Hi. eexists. split; [by apply Hlk|]. case_decide; [|by rewrite decide_False].
     destruct (add_preds_spec ps b) as (_ & _ & E3 & E4 & _). done.
+Qed.
+
+(* ---------------- lookups of the macro steps (frame facts, used by C13) ---------------- *)
+Lemma complete_lookup g ps d g' :
+  (forall i, i ∈ ps -> i < length g) -> NoDup ps -> complete g ps d = Ok g' ->
+  length g' = S (length g) /\
+  (forall i b, g !! i = Some b -> g' !! i = Some (if decide (i ∈ ps) then close (length g) b else b)) /\
+  exists nb, g' !! length g = Some nb /\ b_items nb = [].
+Proof.
+  intros H1 H2 Hc. destruct (complete_spec g ps d H1 H2) as (h & nb & Hc' & Hlen & Hlk & N1 & N2 & N3 & _).
+  rewrite Hc' in Hc. injection Hc as <-. split; [rewrite app_length; simpl; lia|]. split.
+  - intros i b Hb. rewrite lookup_app_l; [by apply Hlk|]. rewrite Hlen. by eapply lookup_lt_Some.
+  - exists nb. split; [|done]. rewrite lookup_app_r by lia. by replace (length g - length h) with 0 by lia.
+Qed.
+
+Lemma frame_complete g ps d g' i :
+  (forall k, k ∈ ps -> k < length g) -> NoDup ps -> complete g ps d = Ok g' ->
+  i ∉ ps -> i < length g -> g' !! i = g !! i.
+Proof.
+  intros H1 H2 Hc Hi Hlt. destruct (complete_lookup _ _ _ _ H1 H2 Hc) as (_ & Hlk & _).
+  destruct (lookup_lt_is_Some_2 g i Hlt) as (b & Hb). rewrite Hb, (Hlk _ _ Hb).
+  by rewrite decide_False.
+Qed.
+
+Lemma frame_branch g it g1 g2 d' i :
+  upd_last (push_item it) g = Ok g1 -> complete g1 [length g - 1] d' = Ok g2 ->
+  i < length g - 1 -> g2 !! i = g !! i.
+Proof.
+  intros Hu Hc Hi. apply upd_last_inv in Hu as [Hne ->].
+  erewrite (frame_complete _ _ _ _ i); [| | |exact Hc| |].
+  - by rewrite list_lookup_alter_ne by lia.
+  - intros k Hk. apply elem_of_list_singleton in Hk as ->. rewrite alter_length. lia.
+  - apply NoDup_singleton.
+  - intros Hk. apply elem_of_list_singleton in Hk. lia.
+  - rewrite alter_length. lia.
+Qed.
+
+Lemma back_lookup h ps g g' :
+  h < length g -> (forall i, i ∈ ps -> i < length g /\ i <> h) -> NoDup ps ->
+  fold_left (back_edge h) ps (Ok g) = Ok g' ->
+  length g' = length g /\
+  forall i b, g !! i = Some b ->
+    g' !! i = Some (if decide (i = h) then add_preds ps b
+                    else if decide (i ∈ ps) then add_succ h b else b).
+Proof.
+  intros H1 H2 H3 Hf. destruct (back_fold h ps g H1 H2 H3) as (g'' & Hf' & Hlen & Hlk).
+  rewrite Hf' in Hf. by injection Hf as <-.
 Qed.
